@@ -9,6 +9,7 @@ mod c03;
 mod c04;
 mod c15;
 mod c16;
+mod c18;
 mod client;
 mod poolop;
 mod server;
@@ -34,6 +35,8 @@ fn eval(op: &str, args: &[&str]) -> Option<Vec<String>> {
         "client" => client::client(args),
         "tls" => tlsop::tls(args),
         "pool" => poolop::pool(args),
+        "transports" => c18::transports(args),
+        "sendmsg" => c18::sendmsg(args),
         "mailparam" => c04::mailparam(args),
         "ehlocmd" => c04::ehlocmd(args),
         "mailstd" => c04::mailstd(args),
